@@ -25,6 +25,7 @@ R15.8 PartialTree.join edits only copies of the receiver's matrix / node / tip l
 R15.9 a looked-up distance of 0.0 is not treated as missing (phylo/util.py).
 R15.10 DistanceMatrix.__getitem__ does not write to the matrix it reads (known finding).
 R15.11 _expand reads alias distances from the table it is filling.
+R15.12 the duplicate relation is established on the sequences themselves (known finding: it is not).
 R15.5 closed forms small enough to decide symbolically: the proportion different is (total - trace) / total,
       JC69 is c * log(a + b * p) with (a, b, c) = (1, -4/3, -3/4) and is refused for p >= 3/4 -- extracted
       by folding the function body to an affine form in p with exact rationals (not by running it).
@@ -471,8 +472,27 @@ def r15_11(chk):
     chk.floor("R15.11", 1, "_expand")
 
 
+def r15_12(chk):
+    chk.rule("R15.12", "'is a duplicate of' must be an equivalence for the shortcut to be sound: run() skips every later comparison of a sequence it has set aside and _expand copies the retained sequence's distances to it, so the test that sets a sequence aside has to establish that the two sequences are the same everywhere (a comparison of the indexed sequences themselves), not merely that they show no difference among the columns valid in BOTH -- with gaps or ambiguity codes that relation is not transitive ('AC--' ~ 'ACGT' and 'AC--' ~ 'ACGA', yet ACGT and ACGA differ) and the result depends on the order of the sequences")
+    m = chk.repo.module(FD)
+    q = "_PairwiseDistance.run"
+    fn = m.func(q)
+    marks = [i for i in walk_no_nested(fn) if isinstance(i, ast.If) and any(isinstance(c, ast.Call) and isinstance(c.func, ast.Attribute) and c.func.attr in ("update", "add", "append") and norm(c.func.value) in ("dupes", "duped[i]") for st in i.body for c in ast.walk(st))]
+    k = key(m, q, "duplicates established on the sequences themselves")
+    if not marks:
+        chk.ok("R15.12", k, m.loc(fn), "no duplicate shortcut", nontrivial=False)
+        chk.floor("R15.12", 0, "")
+        return
+    seqs = {st.targets[0].id for st in walk_no_nested(fn) if isinstance(st, ast.Assign) and isinstance(st.targets[0], ast.Name) and "indexed_seqs" in norm(st.value)}
+    t = marks[0].test
+    names = {x.id for x in ast.walk(t) if isinstance(x, ast.Name)}
+    chk.decide(len(names & seqs) >= 2, "R15.12", k, m.loc(marks[0]), f"test compares {sorted(names & seqs)}", f"a sequence is set aside under `{norm(t)}` alone -- 'no difference among jointly valid columns': for {{'i': 'AC--', 'j': 'ACGT', 'k': 'ACGA'}} both j and k become duplicates of i and d(j, k) is reported as 0.0 instead of 0.25 (0.25 when i is listed last)")
+    chk.floor("R15.12", 1, "duplicate shortcut")
+
+
 def run(chk):
     r15_1(chk)
+    r15_12(chk)
     r15_11(chk)
     r15_9(chk)
     r15_10(chk)
